@@ -161,6 +161,30 @@ func main() {
 				}
 				return false
 			}
+			// a preemption point in front of the statement that performs a synchronisation
+			// operation the lock shims do not model (sync/atomic, sync.Map, sync.Once ...): that is
+			// where lock-free code is sensitive to interleaving
+			yieldedStmt := map[ast.Node]bool{}
+			syncYield := func(call ast.Node) {
+				if !*doYield {
+					return
+				}
+				for x := call; x != nil; x = parents[x] {
+					st, ok := x.(ast.Stmt)
+					if !ok || !inStmtList(st) {
+						if _, isFn := x.(*ast.FuncLit); isFn {
+							return
+						}
+						continue
+					}
+					if !yieldedStmt[st] {
+						yieldedStmt[st] = true
+						add(st.Pos(), 0, "simrt.Yield("+q(site("sync", call.Pos()))+");")
+						counts["yield-sync"]++
+					}
+					return
+				}
+			}
 			ast.Inspect(f, func(n ast.Node) bool {
 				switch x := n.(type) {
 				case *ast.RangeStmt:
@@ -186,6 +210,7 @@ func main() {
 					if id, ok := sel.X.(*ast.Ident); ok {
 						if pn, ok := p.TypesInfo.Uses[id].(*types.PkgName); ok && pn.Imported().Path() == "sync/atomic" {
 							unmodelled = append(unmodelled, rawSite(x.Pos())+" atomic."+sel.Sel.Name)
+							syncYield(x)
 							return true
 						}
 					}
@@ -223,6 +248,7 @@ func main() {
 						if strings.Contains(ts, "sync.Once") || strings.Contains(ts, "sync.Map") || strings.Contains(ts, "sync.WaitGroup") ||
 							strings.Contains(ts, "sync.Cond") || strings.Contains(ts, "sync.Pool") || strings.Contains(ts, "sync/atomic.") || strings.Contains(ts, "atomic.") {
 							unmodelled = append(unmodelled, rawSite(x.Pos())+" "+ts+"."+sel.Sel.Name)
+							syncYield(x)
 						}
 						if id, ok := sel.X.(*ast.Ident); ok {
 							if pn, ok := p.TypesInfo.Uses[id].(*types.PkgName); ok && pn.Imported().Path() == "sync/atomic" {
